@@ -150,7 +150,7 @@ def main(pid):
     ev.cov["histories"] = len(hists)
     ev.assumptions = ["threads are free-running inside a call (1 microsecond switch interval); only the order of call starts and "
                       "returns follows the TLC history -- CPython's scheduler is not enumerated",
-                      "candidate editions are compared as sets (their tuple order is not part of the result)",
+                      "candidate editions are compared in their tuple order (defect F24: the order followed the hash seed; fixed)",
                       "the baseline is the first call in a fresh single-threaded process with PYTHONHASHSEED=0"]
     ev.write(vd)
     return vd.exit_code()
